@@ -609,6 +609,19 @@ h_storage_properties_copy(void)
     if (ret) {
         VASSERT(STR_EQ_AT(g_pd.uri, g_ps.uri) || !(g_ps.uri.str && g_ps.uri.nbytes),
                 "[C13.copy-complete] uri equal by content");
+        /* every string field, by content (ghost byte index g_i); an empty or NULL source
+         * string becomes the one-byte empty string */
+#define COPIED_STRING(f)                                                                       \
+    ((g_ps.f.str && g_ps.f.nbytes) ? STR_EQ_AT(g_pd.f, g_ps.f)                                 \
+                                   : (g_pd.f.str != 0 && g_pd.f.nbytes == 1 && g_pd.f.str[0] == 0))
+        VASSERT(COPIED_STRING(external_metadata_json), "[C13.copy-complete] external metadata equal by content");
+        VASSERT(COPIED_STRING(access_key_id), "[C13.copy-complete] access key id equal by content");
+        VASSERT(COPIED_STRING(secret_access_key), "[C13.copy-complete] secret access key equal by content");
+        if (g_ps.acquisition_dimensions.size >= 1)
+            VASSERT(COPIED_STRING(acquisition_dimensions.data[0].name), "[C13.copy-complete] name of dimension 0 equal by content");
+        if (g_ps.acquisition_dimensions.size >= 2)
+            VASSERT(COPIED_STRING(acquisition_dimensions.data[1].name), "[C13.copy-complete] name of dimension 1 equal by content");
+#undef COPIED_STRING
         if (g_ps.acquisition_dimensions.size >= 1 && g_ps.acquisition_dimensions.data[0].name.str &&
             g_ps.acquisition_dimensions.data[0].name.nbytes)
             VASSERT(g_pd.acquisition_dimensions.data[0].name.nbytes == g_ps.acquisition_dimensions.data[0].name.nbytes &&
